@@ -27,6 +27,8 @@ def c01(tier: str) -> list[dict[str, Any]]:
         plan("G3 two leaves, 2 workers, one failure anywhere", trav.menu("G3"), m, K=1, statuses=["PASS", "FAIL"], max_nonpass=1, pool_bits="all", pool_states=["linux_virtuser", "windows_virtuser"], pool_fixed=DEEP),
         plan("G1 eager, 2 workers, one failure or missing result", trav.menu("G1", lazy=False), m, K=1, statuses=["PASS", "FAIL", "NONE"], max_nonpass=1, pool_bits="shared", pool_states=["customize", "on_customize"]),
         plan("G8 removable state with a dependant, one worker excluded by its restrictions", trav.menu("G8"), m, K=1, statuses=["PASS"], pool_fixed={**DEEP, "linux_virtuser": ["shared"], "windows_virtuser": ["shared"], "connect": ["shared"]}),
+        plan("G2 with a Fedora vm1 (both vms need a setup of the same name), 1 worker", trav.menu("G2", nets="net1", vm_strs={"vm1": "only Fedora\n", "vm2": "only Win10\n", "vm3": "only Ubuntu\n"}, label="G2-fedora"), m, K=1, statuses=["PASS"]),
+        plan("G9 two leaves, reuse scope narrowed to own+shared, 2 workers", trav.menu("G9", params={"pool_scope": "own shared"}, label="G9-ownshared"), m, K=1, statuses=["PASS"], pool_fixed={"install": ["shared"]}),
     ]
     if tier == "thorough":
         out += [
@@ -68,6 +70,7 @@ def c03(tier: str) -> list[dict[str, Any]]:
         plan("G2 2 workers, max_tries=2", trav.menu("G2", params={"max_tries": "2"}, label="G2-tries2"), m, K=1, statuses=["PASS", "FAIL"], max_nonpass=2),
         plan("G3 per-worker scope (swarm removed from pool_scope)", trav.menu("G3", params={"pool_scope": "own cluster shared"}, label="G3-noswarm"), m, K=1, statuses=["PASS", "FAIL"], max_nonpass=1, pool_fixed=DEEP),
         plan("G6 per-swarm scope (cluster removed, remote spawner)", trav.menu("G6b", params={"pool_scope": "own swarm shared"}, label="G6b-nocluster"), m, K=1, statuses=["PASS"], pool_bits="shared", pool_states=["customize"], pool_fixed={"install": ["shared"]}),
+        plan("G1 per-worker scope with retries, own pools symbolic", trav.menu("G1", params={"pool_scope": "own shared", "max_tries": "2"}, label="G1-ownshared-tries2"), m, K=1, statuses=["PASS"], pool_bits="all", pool_states=["customize", "on_customize"], pool_fixed={"install": ["own", "shared"]}),
     ]
     if tier == "thorough":
         out += [
@@ -140,6 +143,7 @@ def c08(tier: str) -> list[dict[str, Any]]:
     m = [M.c08]
     out = [
         plan("G2 2 workers, who produces is schedule dependent", trav.menu("G2"), m, K=1, statuses=["PASS", "FAIL", "WARN"], max_nonpass=1),
+        plan("G2 2 workers, a setup test is skipped or cancelled", trav.menu("G2"), m, K=1, statuses=["PASS", "SKIP", "CANCEL", "INTERRUPTED"], max_nonpass=1, pool_fixed={"install": ["shared"]}),
         plan("G3 2 workers", trav.menu("G3"), m, K=1, statuses=["PASS", "FAIL"], max_nonpass=1, pool_fixed=DEEP),
         plan("G5 worker with excluding restrictions", trav.menu("G5"), m, K=1, statuses=["PASS"]),
         plan("G6 remote clusters", trav.menu("G6b"), m, K=1, statuses=["PASS"], pool_fixed={"install": ["shared"]}),
